@@ -20,7 +20,7 @@ RULE = ('designs of strata S1, S2, S2s, S4, S6 (quick: stratified core) x {synth
         'calls; non-trivial = the design has >= 3 user factors, a hidden factor or an implied factor (order and filtering matter).')
 ASSUMPTIONS = ['column/tuple order is the order in which the factors were declared in the design', 'discrete designs only (A9)']
 BUDGET_S = {'quick': 60, 'thorough': 300}
-STRATA = ['S1', 'S2', 'S2s', 'S4', 'S6']
+STRATA = ['S1', 'S1n', 'S2', 'S2s', 'S4', 'S6']
 QUICK_CAPS = {'S1': 150, 'S2': 150, 'S4': 60, 'S6': 80}
 ARB_CAP = {'quick': 60, 'thorough': 600}
 
